@@ -100,6 +100,8 @@ impl Method for SWMA {
 	}
 	open spec fn input_ok(&self, x: &ValueType) -> bool { true }
 	open spec fn step(pre: &Self, x: &ValueType, post: &Self, out: &ValueType) -> bool {
+		// the shape never changes
+		&&& post.l() == pre.l() && post.r() == pre.r()
 		// length 1: the single weight is 1, the output is the input
 		&&& (pre.r() == 0 ==> out@ == x@)
 		// C09: peek (numerator * invert_sum) returns the value just produced, for every length
